@@ -231,6 +231,7 @@ func run(c *rig.Ctx) {
 		}
 	})
 	waveStops(c)
+	lengthWhileOff(c)
 }
 
 func main() {
